@@ -476,6 +476,11 @@ func judgeResume(sc *scen.Scenario, res *scen.Result, runErr error) (string, err
 	if !res.Connected {
 		return "violation", fmt.Errorf("a client started on a stored session did not connect: %s %s", res.ConnectErr, res.ConnectPanic)
 	}
+	for _, n := range res.Notes {
+		if strings.HasPrefix(n, "loader-after-client:") {
+			return "violation", fmt.Errorf("a stored session is not read back intact: %s", strings.TrimPrefix(n, "loader-after-client: "))
+		}
+	}
 	first := true
 	for _, ev := range res.Events {
 		if ev.Server == "decoy" {
